@@ -461,6 +461,35 @@ def angle_expressible(gpt):
     return 0.05 < a < math.pi - 0.05
 
 
+def angle_rhs_expected(gpt, c):
+    """(obs - A) * 2e6/pi with A the angle in [0, pi] between the horizontal parts (w.r.t. the station's vertical,
+    B + dB, L + dL) of the sights instrument -> left / right target, each raised along its own vertical"""
+    g = {r: [hex2float(x) for x in gpt[r][:21]] for r in ("frm", "left", "right")}
+
+    def up(q):
+        b, l = q[6] + q[10], q[7] + q[11]
+        return (math.cos(b) * math.cos(l), math.cos(b) * math.sin(l), math.sin(b))
+
+    def raised(q, dh):
+        u = up(q)
+        return [q[j] + dh * u[j] for j in range(3)]
+    dh = c["dh"]
+    ins = raised(g["frm"], dh[0])
+    u = up(g["frm"])
+    hs = []
+    for r, k in (("left", 2), ("right", 3)):
+        a = [x - y for x, y in zip(raised(g[r], dh[k]), ins)]
+        au = sum(a[j] * u[j] for j in range(3))
+        h = [a[j] - au * u[j] for j in range(3)]
+        if math.sqrt(sum(x * x for x in h)) < 1e-3:
+            return None
+        hs.append(h)
+    cr = [hs[0][1] * hs[1][2] - hs[0][2] * hs[1][1], hs[0][2] * hs[1][0] - hs[0][0] * hs[1][2],
+          hs[0][0] * hs[1][1] - hs[0][1] * hs[1][0]]
+    ang = math.atan2(math.sqrt(sum(x * x for x in cr)), sum(hs[0][j] * hs[1][j] for j in range(3)))
+    return (c["v"][0] - ang) * 2e6 / math.pi
+
+
 def lin_stream(ctx, corr, exe):
     cases = [c["case"] for c in load_corpus(ctx, "lin")]
     cases += [gen_lin_case(ctx.rng) for _ in range(ctx.size(400, 6000))]
@@ -499,6 +528,19 @@ def lin_oracles(ctx, corr, exe, cases):
                     corr.fail(f"{c['type']} row {k + 1}: coefficients for unknowns {got}, but the adjusted unknowns of its "
                               f"points are {exp}", {"stream": "lin", "case": c}, f"Model::linearization({c['type']})")
                     break
+        # ---- oracle on the implementation (round 4, next to C19_angle_rhs_same_theta): the right-hand side of an angle
+        #      row is (observed - angle between the horizontal directions to the left and the right target) * 2e6/pi,
+        #      directions = sights instrument -> raised target projected on the plane normal to the station's vertical
+        if c["type"] == "angle" and rhs and all(len(gpt.get(r, [])) >= 21 for r in ("frm", "left", "right")):
+            exp_rhs = angle_rhs_expected(gpt, c)
+            if exp_rhs is not None:
+                dev = abs(rhs[0] - exp_rhs)
+                corr.maxstat("lin_max_dev_angle_rhs_vs_direction_difference_cc", dev)
+                corr.count("lin_angle_rhs_checks")
+                if dev > 1e-5 + 1e-10 * abs(exp_rhs):
+                    corr.fail(f"angle: right-hand side is {rhs[0]:.9g} cc but observed - (direction to the right target - "
+                              f"direction to the left target) is {exp_rhs:.9g} cc",
+                              {"stream": "lin", "case": c, "role": "rhs"}, "Model::linearization(angle)")
         if c["clean"] and c["type"] != "azimuth" and rows and all(len(g) >= 21 for g in gpt.values()):
             if c["type"] == "angle" and not angle_expressible(gpt):
                 corr.count("lin angle cases outside (0, 200 gon) skipped by the derivative oracle (limitation G4)")
@@ -703,6 +745,34 @@ def gross_error(rng, net):
     return net
 
 
+def minx_oracle(lines):
+    """the spec of the regularisation list on the harness's own output: `res minx` = Parameter::index() of the
+    constrained (state 3) entries of `res par`, in list order; `res nominx` iff there is none"""
+    state, index, par, got = {}, {}, None, None
+    for l in lines:
+        t = l.split()
+        if t[:2] == ["data", "pt"] and len(t) >= 16:
+            state[t[2]] = dict(zip("NEU", (int(x) for x in t[13:16])))
+        elif t[:2] == ["res", "idx"]:
+            index[t[2]] = dict(zip("NEU", (int(x) for x in t[3:6])))
+        elif t[:2] == ["res", "par"]:
+            par = [x.rsplit(".", 1) for x in t[2:]]
+        elif t[:2] == ["res", "minx"] and got is None:
+            got = [int(x) for x in t[3:]]
+        elif t[:2] == ["res", "nominx"] and got is None:
+            got = []
+    if par is None or got is None:
+        return None
+    try:
+        exp = [index[nm][c] for nm, c in par if state[nm][c] == 3]
+    except KeyError:
+        return None
+    if got != exp:
+        return (f"the regularisation list handed to Adj::min_x is {got or 'absent'}, but the column indices of the "
+                f"constrained parameters on par_list are {exp or 'none'}")
+    return None
+
+
 def correspond(ctx, corr):
     gen = _gen()
     exe = ctx.build_cpp("c19_g3", harness_sources(ctx), libs=["-lexpat"])
@@ -776,6 +846,13 @@ def correspond(ctx, corr):
         why = cmp_lines(ires, mres, stat)
         if why:
             corr.disagree("g3-linearisation", {"net": n, "xml": xmltxt[:3000]}, ires[:80], mres[:80], why)
+        # ---- oracle on the implementation (round 4, C19_minx_spec): the list handed to Adj::min_x holds the column
+        #      indices of exactly the constrained parameters of par_list, in that order; no list if there is none
+        mx = minx_oracle(impl[i])
+        if mx:
+            corr.fail(mx, {"stream": "g3-minx", "net": n, "xml": gen.to_xml(n, newline="\n")}, "Model::update_linearization")
+        else:
+            corr.count("minx_oracle_checks")
         # round trip: real writer -> real reader is the identity; model reader / writer agree with them
         if "res adjrt same" not in impl[i]:
             corr.fail("AdjInputData::write_xml -> DataParser does not reproduce the adjustment input: " +
@@ -931,6 +1008,14 @@ def replay(ctx, payload):
             corr.fail("Model::update_adjustment / result writer crashed (sanitizer)", {}, "", crashes[0][1])
         else:
             result_oracle(corr, net, gen, out[0], inp.get("alg"))
+    elif inp.get("stream") == "g3-minx":
+        out, crashes = run_cases(exe, [["xml " + gen.to_xml(net)]])
+        if crashes:
+            corr.fail("harness crashed", {}, "", crashes[0][1])
+        else:
+            mx = minx_oracle(out[0])
+            if mx:
+                corr.fail(mx, {})
     else:
         out, crashes = run_cases(exe, [["xml " + gen.to_xml(net), "adjrt"]])
         if crashes:
